@@ -1039,7 +1039,10 @@ int ov_halfrate(OggVorbis_File *vf,int flag){
     if(vf->pcm_offset>=0){
       ogg_int64_t pos=vf->pcm_offset;
       vf->pcm_offset=-1; /* make sure the pos is dumped if unseekable */
-      ov_pcm_seek(vf,pos);
+      if(vf->seekable){
+        int ret=ov_pcm_seek(vf,pos);
+        if(ret)return(ret);
+      }
     }
   }
 
